@@ -76,13 +76,18 @@ def resolve(name, params, d, rng):
     if r == 1:
       return np.asfortranarray(A)
     if r == 2:
-      big = np.zeros((A.shape[0], 2 * A.shape[1]))
+      big = np.zeros((A.shape[0], 2 * A.shape[1]), dtype=A.dtype)
       big[:, ::2] = A
       return big[:, ::2]
     return A
   for key, val in list(out.items()):
     if val == '@spd':
-      out[key] = layout(D.spd_matrix(rng, d, cond=20.0))
+      if rng.randint(4) == 0:
+        # an SPD ndarray may well hold integers (its inverse does not)
+        B = rng.randint(-2, 3, size=(d, d))
+        out[key] = layout(B.dot(B.T) + np.eye(d, dtype=B.dtype))
+      else:
+        out[key] = layout(D.spd_matrix(rng, d, cond=20.0))
     elif val == '@randn':
       out[key] = layout(rng.randn(k, d))
     elif val == '@basis':
